@@ -1,5 +1,181 @@
+//! Hooked into `crates/step_sim/src/agents/common.rs`.
+//!
+//! C16 kernels: the four price kernels over ALL finite f64 inputs (bit-precise floats), ticks 1..=10,
+//! and the cancel kernels over ALL generator words.
 #![allow(dead_code)]
-#[cfg(not(kani))]
-pub fn lookup(_name: &str) -> Option<fn()> {
-    None
+#![allow(clippy::all)]
+use super::*;
+use crate::verif::*;
+use bourse_book::verif::book::*;
+#[allow(unused_imports)]
+use bourse_book::verif::src::*;
+use bourse_book::{vcheck, vcover, vharnesses};
+
+/// stands in for `LogNormal<f64>` in the generic kernels: hands back the value the harness drew
+/// (any finite f64 >= 0: the log-normal's support; +inf needs |z| > 700 and is excluded)
+#[derive(Clone, Copy)]
+pub struct AnyDist(pub f64);
+impl Distribution<f64> for AnyDist {
+    fn sample<R: rand::Rng + ?Sized>(&self, _rng: &mut R) -> f64 {
+        self.0
+    }
+}
+
+/// a mid-price exactly as `OrderBook::mid_price` computes it from an uncrossed touch (sentinels
+/// 0 / MAX for empty sides included); ask <= MAX - 10 unless the ask side is empty and the bid is
+/// too (so that an on-grid price at or above the mid exists for every tick <= 10)
+pub fn gen_mid() -> f64 {
+    let bid = any_u32();
+    let ask = any_u32();
+    assume(bid <= ask);
+    f64::from(bid) + 0.5 * f64::from(ask - bid)
+}
+
+pub fn fresh_env(tick: Price) -> Env {
+    Env::new(any_u64(), tick, any_u64(), any_bool())
+}
+
+/// one call of a limit-price kernel at tick `T`
+pub fn kernel_case<const T: u32>(sell: bool, market_env: bool) {
+    let mid = gen_mid();
+    let d = any_f64();
+    assume(d.is_finite() && d >= 0.0);
+    let vol = any_u32();
+    let trader = any_u32();
+    let mut rng = SymRng::new();
+    let tick_f = f64::from(T);
+    let (res_ok, side_ok, price, o_vol, o_trader, n, q) = if !market_env {
+        let mut env = fresh_env(T);
+        let r = if sell {
+            place_sell_limit_order(&mut env, &mut rng, AnyDist(d), mid, tick_f, vol, trader)
+        } else {
+            place_buy_limit_order(&mut env, &mut rng, AnyDist(d), mid, tick_f, vol, trader)
+        };
+        match r {
+            Ok(id) => {
+                let o = env.order(id);
+                (true, matches!(o.side, Side::Ask) == sell && id == 0 && o.status == Status::New, o.price, o.vol, o.trader_id, env.get_orderbook().verif_n_orders(), env.verif_queue_len())
+            }
+            Err(_) => (false, false, 0, 0, 0, env.get_orderbook().verif_n_orders(), env.verif_queue_len()),
+        }
+    } else {
+        let mut env: MarketEnv<2, 2> = MarketEnv::new(any_u64(), [1, T], any_u64(), any_bool());
+        let r = if sell {
+            place_sell_limit_order_market(&mut env, &mut rng, AnyDist(d), mid, tick_f, vol, 1, trader)
+        } else {
+            place_buy_limit_order_market(&mut env, &mut rng, AnyDist(d), mid, tick_f, vol, 1, trader)
+        };
+        match r {
+            Ok(id) => {
+                let o = env.order(id);
+                (true, matches!(o.side, Side::Ask) == sell && id == (1, 0) && o.status == Status::New, o.price, o.vol, o.trader_id, env.get_market().get_order_book(1).verif_n_orders(), env.verif_queue_len())
+            }
+            Err(_) => (false, false, 0, 0, 0, env.get_market().get_order_book(1).verif_n_orders(), env.verif_queue_len()),
+        }
+    };
+    vcheck!(res_ok, "AGENT.limit_kernel_never_fails_on_a_consistent_tick");
+    if res_ok {
+        vcheck!(side_ok && n == 1 && q == 1, "AGENT.limit_kernel_submits_one_new_order_on_its_side");
+        vcheck!(price % T == 0, "AGENT.limit_kernel_price_on_tick_grid");
+        vcheck!(o_vol == vol && o_trader == trader, "AGENT.limit_kernel_volume_and_trader_as_configured");
+        // quoting: buys at or below, sells at or above the observed mid (while such a grid price exists)
+        if sell {
+            if mid <= f64::from(Price::MAX - 10) {
+                vcheck!(f64::from(price) >= mid, "AGENT.sell_quoted_at_or_above_mid");
+            }
+        } else {
+            vcheck!(f64::from(price) <= mid, "AGENT.buy_quoted_at_or_below_mid");
+        }
+    }
+    vcheck!(rng.calls == 0, "AGENT.limit_kernel_randomness_only_through_the_distribution");
+}
+
+pub fn kernel_all_ticks(sell: bool, market_env: bool) {
+    kernel_case::<1>(sell, market_env);
+    kernel_case::<2>(sell, market_env);
+    kernel_case::<3>(sell, market_env);
+    kernel_case::<4>(sell, market_env);
+    kernel_case::<5>(sell, market_env);
+    kernel_case::<6>(sell, market_env);
+    kernel_case::<7>(sell, market_env);
+    kernel_case::<8>(sell, market_env);
+    kernel_case::<9>(sell, market_env);
+    kernel_case::<10>(sell, market_env);
+}
+
+/// `rng.gen::<f32>()` as compiled (rand 0.8.5 `Standard`): 24 random bits scaled into [0, 1)
+pub fn f32_of_word(w: u32) -> f32 {
+    (w >> 8) as f32 * (1.0 / 16_777_216.0)
+}
+
+/// `cancel_live_orders` on an environment over an arbitrary two-entry table with both ids tracked
+/// (duplicates excluded), arbitrary `p_cancel`, all generator words
+pub fn cancel_kernel(p_mode: u8) {
+    let p: Plain<3> = gen_plain::<3>(2, OFF);
+    let book = build::<3, 10>(&p, 0);
+    let mut env: Env = Env::verif_from_book(any_u64(), book);
+    let mut rng = SymRng::new();
+    let w0 = rng.push_u32();
+    let w1 = rng.push_u32();
+    rng.strict = true;
+    let p_cancel: f32 = match p_mode {
+        0 => 0.0,
+        1 => {
+            let x = any_f32();
+            assume(x >= 1.0);
+            x
+        }
+        _ => {
+            let x = any_f32();
+            assume(x > 0.0 && x < 1.0);
+            x
+        }
+    };
+    let tracked = [0usize, 1usize];
+    let a0 = entry_order(&p.e[0]).status == Status::Active;
+    let a1 = entry_order(&p.e[1]).status == Status::Active;
+    let kept = cancel_live_orders(&mut env, &mut rng, &tracked, p_cancel);
+    // the k-th live order consumes the k-th word
+    let nlive = a0 as usize + a1 as usize;
+    vcheck!(rng.calls == nlive && !rng.overdrawn, "AGENT.cancel_draws_one_word_per_live_order");
+    let d0 = f32_of_word(w0);
+    let d1 = f32_of_word(if a0 { w1 } else { w0 });
+    let c0 = a0 && !(d0 > p_cancel);
+    let c1 = a1 && !(d1 > p_cancel);
+    let ncancel = c0 as usize + c1 as usize;
+    vcheck!(env.verif_queue_len() == ncancel, "AGENT.cancel_queues_one_cancellation_per_selected_live_order");
+    vcheck!(kept.len() == nlive - ncancel, "AGENT.cancel_returns_exactly_the_surviving_live_orders");
+    let mut ok = true;
+    let mut i = 0;
+    while i < kept.len() {
+        let id = kept[i];
+        ok &= (id == 0 && a0 && !c0) || (id == 1 && a1 && !c1);
+        i += 1;
+    }
+    vcheck!(ok, "AGENT.cancel_keeps_only_tracked_active_orders");
+    vcheck!(env.verif_queued_cancels_only(&tracked, &[a0, a1]), "AGENT.cancels_only_own_orders_that_were_active");
+    match p_mode {
+        0 => vcheck!(ncancel == 0, "AGENT.probability_zero_never_cancels"),
+        1 => vcheck!(ncancel == nlive, "AGENT.probability_one_always_cancels"),
+        _ => {}
+    }
+    vcover!(nlive == 2, "cover.two_live_orders");
+    core::mem::forget(env);
+}
+
+vharnesses! {
+    #[cfg_attr(kani, kani::unwind(12))]
+    fn c16_sell_limit_kernel_ticks_1_10() { kernel_all_ticks(true, false) }
+    #[cfg_attr(kani, kani::unwind(12))]
+    fn c16_buy_limit_kernel_ticks_1_10() { kernel_all_ticks(false, false) }
+    #[cfg_attr(kani, kani::unwind(12))]
+    fn c16_sell_limit_kernel_market_ticks_1_10() { kernel_all_ticks(true, true) }
+    #[cfg_attr(kani, kani::unwind(12))]
+    fn c16_buy_limit_kernel_market_ticks_1_10() { kernel_all_ticks(false, true) }
+    #[cfg_attr(kani, kani::unwind(12))]
+    fn c16_cancel_kernel_p_zero() { cancel_kernel(0) }
+    #[cfg_attr(kani, kani::unwind(12))]
+    fn c16_cancel_kernel_p_one() { cancel_kernel(1) }
+    #[cfg_attr(kani, kani::unwind(12))]
+    fn c16_cancel_kernel_p_interior() { cancel_kernel(2) }
 }
